@@ -708,6 +708,20 @@ def rule_uwidth(ctx):
                 if c.callee.module.short == "hashes":
                     todo.append(c.callee)
     fam["fasthash32"] = "fasthash64"
+    fold_only = set()          # helpers of the 64 -> 32 fold alone: they carry the 32-bit result as well
+    if "fasthash32" in mod.funcs:
+        todo, seen = [mod.funcs["fasthash32"]], set()
+        while todo:
+            f = todo.pop()
+            if f.key in seen:
+                continue
+            seen.add(f.key)
+            if f.name not in fam:
+                fold_only.add(f.name)
+            fam.setdefault(f.name, "fasthash64")
+            for c in F.calls_from(f):
+                if c.callee.module.short == "hashes":
+                    todo.append(c.callee)
     word = {"fasthash64": Ty("uint", 64), "murmur3": Ty("uint", 32)}
     for name, f in sorted(mod.funcs.items()):
         if not f.is_kernel:
@@ -730,9 +744,12 @@ def rule_uwidth(ctx):
         # the exact widths are part of the term comparison (rule dfg models every typed parameter/return as a truncation); what must
         # hold independently is that helper scalars are unsigned (shifts stay logical, truncation is modular) and that values of the
         # family's word are carried in that word
-        okk = all(t is not None and (t.kind == "bytes" or (t.kind == "uint" and not t.is_array)) for t in tys)
+        takes_key = any(t is not None and t.kind == "bytes" for t in tys)
+        # (a helper that reads the key itself may take 64-bit positions into it, signed or not: an index is not a hash word)
+        okk = all(t is not None and (t.kind == "bytes" or (t.kind == "uint" and not t.is_array) or
+                                     (takes_key and t.kind == "int" and t.bits == 64 and not t.is_array)) for t in tys)
         words = [t for t in tys if t is not None and t.kind == "uint" and t.bits >= min(32, wt.bits)]
-        okw = all(t == wt for t in words) or any(t.kind == "bytes" for t in tys if t is not None)
+        okw = all(t == wt or (name in fold_only and t == Ty("uint", 32)) for t in words) or any(t.kind == "bytes" for t in tys if t is not None)
         ctx.ob("uwidth", f, f.node, "%s: %s -> %r" % (name, [repr(t) for t in f.ptypes.values()], f.rtype),
                "helper scalars are unsigned and word-sized values use the family's word %r (this is what truncates Numba's 64-bit intermediates and keeps shifts logical)" % wt,
                okk and okw)
